@@ -246,7 +246,12 @@ impl<V: JwsVerifier> SdJwtCredentialValidator<V> {
     let decoded: JwsValidationItem<'_> = jws_decoder
       .decode_compact_serialization(kb_jwt.as_bytes(), None)
       .map_err(|err| KeyBindingJwtError::JwtValidationError(JwtValidationError::JwsDecodingError(err)))?;
-    let decoded_kb_jws = decoded.verify(&self.0, public_key).unwrap();
+    let decoded_kb_jws = decoded
+      .verify(&self.0, public_key)
+      .map_err(|err| JwtValidationError::Signature {
+        source: err,
+        signer_ctx: SignerContext::Holder,
+      })?;
 
     let kb_jwt_claims: KeyBindingJwtClaims = serde_json::from_slice(&decoded_kb_jws.claims)
       .map_err(|_| KeyBindingJwtError::DeserializationError("failed to deserialize kb-jwt claims".into()))?;
